@@ -741,6 +741,11 @@ def run(tier: str) -> int:
 
 def _run(o, thorough, hd: Path) -> int:
     wait_helpers = start_live_helpers(hd)
+    tphase = [("start", time.time())]
+
+    def mark(name):
+        tphase.append((name, time.time()))
+        o.extra["phase_seconds"] = {b[0]: round(b[1] - a[1], 1) for a, b in zip(tphase, tphase[1:])}
     # ---- M
     for name, cfg, kw in (
         ("MC_ideal", "MC_LuaTimeout_ideal_T.cfg" if thorough else "MC_LuaTimeout_ideal.cfg", {"coverage": True}),
@@ -771,6 +776,7 @@ def _run(o, thorough, hd: Path) -> int:
         if not bad:
             raise common.TLCError(f"Demo_LuaTimeout_{name} no longer shows its counterexample (vacuity guard)")
     o.extra["demo_counterexamples"] = demos
+    mark("model checking")
     # ---- G
     names = wait_helpers()
     listed = helper_roles_of_c06()
@@ -784,6 +790,7 @@ def _run(o, thorough, hd: Path) -> int:
     cases = load_programs(o, thorough)
     if not any(helper_call(c["wrap"][0]) == (h, v) for c in cases if c["wrap"] for h in names[:1] for v in ("nil",)):
         raise common.TLCError("the generator did not emit the helper calls of the live module environment")
+    mark("generators")
     rng = random.Random(common.seed() * 7919 + 7)
     with Scratch("c07-") as d:
         fresh = fresh_follow(d)
@@ -834,6 +841,7 @@ def _run(o, thorough, hd: Path) -> int:
                         break
         o.sample({"program": key(cases[len(cases) // 2]), "lua": render(cases[len(cases) // 2]["body"], cases[len(cases) // 2]["wrap"])[-300:]})
         o.extra["observed_classes"] = {k: sum(1 for v in observed.values() if v == k) for k in sorted(set(observed.values()))}
+        mark("programs")
         # ---- histories: several programs that do end, one context, then the benign invocations
         # (programs that ended as demanded when run alone - nested invocations included - or that no deviation lets hang)
         ending = [c for c in cases if observed[key(c)] in ("aborted", "error", "returned")
@@ -875,10 +883,13 @@ def _run(o, thorough, hd: Path) -> int:
                         break
         if hists:
             o.sample({"history": [key(c) for c in hists[0]], "then": [t for t, _ in FOLLOW[:3]]})
+        mark("histories")
         # ---- sessions (spec/LuaSession.tla)
         check_sessions(o, d)
+        mark("sessions")
         # ---- V: recorded event traces validated by TLC
         validate_traces(o, traces, d)
+        mark("traces")
     o.exhaustive = True
     return o.finish()
 
@@ -1008,5 +1019,35 @@ def selftest() -> int:
         judge(o3, cn, dict(runn, cls="returned", out="done", events=[["enter", "1", "ninv"], ["nret", "1", "timeout"]]), None, None, "selftest")
         print("module returned after an in-band nested timeout:", len(o3.violations), "violation(s)")
         ok &= len(o3.violations) == 1
+        # (4) where the endless code sits: in the message handler of an xpcall, entered for the time limit error inside the
+        # count hook.  For real the invocation is aborted (the handler is not run); a trace in which Lua enters the handler
+        # for the time limit error is no behaviour of the demanded design (it is one of XpcallHandlerRunsInHook); a run that
+        # hangs after that event is reported, and the verdict names the handler
+        cw = {key(c): c for c in tlc("Gen_LuaTimeout", "Gen_LuaTimeout_QW.cfg", workers=1).cases}
+        cx = cw["tight:xht"]
+        runx = run_histories([[cx]], d / "x")[0]["runs"][0]
+        print("endless message handler under an endless protected function: observed", runx["cls"], "demanded", cx["demand"])
+        ok &= obs_class(runx["cls"]) == cx["demand"]
+        fake = [{"e": "enter", "i": 1, "x": "xht"}, {"e": "hdl", "i": 1, "x": "timeout"}]
+        b5 = tlc_traces(None, [{"body": "tight", "wrap": ["xht"], "dev": [], "events": fake, "complete": False}], d, "-xh-ideal")
+        b6 = tlc_traces(None, [{"body": "tight", "wrap": ["xht"], "dev": ["XpcallHandlerRunsInHook"], "events": fake, "complete": False}], d, "-xh-dev")
+        print("handler entered for the time limit error: rejected under the demanded design =", len(b5), "; accepted under XpcallHandlerRunsInHook =", not b6)
+        ok &= len(b5) == 1 and not b6
+        o4 = Outcome(PID, "quick")
+        judge(o4, cx, dict(runx, cls="hung", out=None, stacks=None, events=[["enter", "1", "xht"], ["hdl", "1", "timeout"]]), None, None, "selftest")
+        named = len(o4.violations) == 1 and "MESSAGE HANDLER" in json.dumps(o4.violations[0]) and "XpcallHandlerRunsInHook" in json.dumps(o4.violations[0])
+        print("hung in the handler:", len(o4.violations), "violation(s), handler and deviation named =", named)
+        ok &= named
+        # (5) a bookkeeping helper called with nil before the loop: aborted for real; a hung run is reported with the helper named
+        chh = {key(c): c for c in tlc("Gen_LuaTimeout", "Gen_LuaTimeout_QH.cfg", workers=1).cases}
+        ch = chh["tight:hc:_python_append_env:nil"]
+        runh = run_histories([[ch]], d / "h")[0]["runs"][0]
+        print("_python_append_env(nil) before the loop: observed", runh["cls"], "demanded", ch["demand"])
+        ok &= obs_class(runh["cls"]) == ch["demand"]
+        o5 = Outcome(PID, "quick")
+        judge(o5, ch, dict(runh, cls="hung", out=None, stacks=None), None, None, "selftest")
+        named = len(o5.violations) == 1 and "_python_append_env(nil)" in json.dumps(o5.violations[0]) and "EnvStackHelperAcceptsNil" in json.dumps(o5.violations[0])
+        print("hung after the helper call:", len(o5.violations), "violation(s), helper and deviation named =", named)
+        ok &= named
     print("selftest", "ok" if ok else "FAILED")
     return 0 if ok else 1
